@@ -51,7 +51,7 @@ let rec nat_of_int n = if n <= 0 then O else S (nat_of_int (n - 1))
    displacement of the stamp order); every step is RootQR.rq_try (the model's own step function).  An enabled observation is
    always taken first (it changes nothing but its thread's program point).  The order found is then executed by RootQR.replay
    in strict mode, which is the result reported. *)
-let search (try_ : 'st -> ract -> 'st option) (s0 : 'st) (acts : ract array) (k : int) (dmax : int) (budget : int) : int list * bool =
+let search (show : 'st -> string) (try_ : 'st -> ract -> 'st option) (s0 : 'st) (acts : ract array) (k : int) (dmax : int) (budget : int) : int list * bool =
   let n = Array.length acts in
   let tid_of = Array.map (fun a -> int_of_z a.r_tid) acts in
   (* flexible actions (hidden steps, the first event of a thread: their place in the stamp order is only a lower bound) do
@@ -68,7 +68,7 @@ let search (try_ : 'st -> ract -> 'st option) (s0 : 'st) (acts : ract array) (k 
   let state = ref s0 and head = ref 0 and ndone = ref 0 and steps = ref 0 and lingering = ref [] in
   let order = ref [] in
   let best = ref 0 and best_order = ref [] in
-  let result = ref None in
+  let result = ref None and nback = ref 0 in
   let advance () =
     while !head < n && (donef.(!head) || flex.(!head)) do
       if not donef.(!head) then lingering := !head :: !lingering;
@@ -103,17 +103,50 @@ let search (try_ : 'st -> ract -> 'st option) (s0 : 'st) (acts : ract array) (k 
         done;
         let enabled = List.filter_map (fun i -> match try_ !state acts.(i) with Some s' -> Some (i, s') | None -> None) (List.rev !cands) in
         let obs = List.filter (fun (i, _) -> acts.(i).r_obs) enabled in
-        (* a flexible action that writes (the first event of a new thread: it happened somewhere between the thread's creation
-           and its late stamp) is tried when the head of the order is blocked (it is probably what the head waits for), and
-           otherwise last *)
-        let fw = List.filter (fun (i, _) -> flex.(i) && not acts.(i).r_obs) enabled in
-        let nf = List.filter (fun (i, _) -> not (flex.(i) && not acts.(i).r_obs)) enabled in
-        let head_ok = List.exists (fun (i, _) -> i = !head) nf in
-        let enabled = if head_ok then nf @ fw else fw @ nf in
+        (* an enabled action that the first choice would disable, and that does not disable the first choice, goes before it
+           (e.g. a blind store stamped just before a compare-exchange that really preceded it) *)
+        let enabled =
+          let rec refine fuel cur rest_all =
+            if fuel = 0 then cur else
+            let (i1, s1) = cur in
+            match List.find_opt (fun (j, sj) -> j <> i1 && try_ s1 acts.(j) = None && try_ sj acts.(i1) <> None) rest_all with
+            | Some c -> refine (fuel - 1) c rest_all
+            | None -> cur in
+          match enabled with
+          | [] -> []
+          | c1 :: _ when obs = [] ->
+            let (ib, sb) = refine (List.length enabled) c1 enabled in
+            (ib, sb) :: List.filter (fun (j, _) -> j <> ib) enabled
+          | _ -> enabled in
+        (match Sys.getenv_opt "RQ_FROM" with
+         | Some f when !ndone >= int_of_string f && !ndone < int_of_string f + 60 ->
+           Printf.eprintf "step done=%d head=%d(tid %d id %d) state %s | enabled: %s\n" !ndone !head tid_of.(!head) (int_of_z acts.(!head).r_id) (show !state)
+             (String.concat " " (List.map (fun (i, _) -> Printf.sprintf "%d(t%d,id%d%s)" i tid_of.(i) (int_of_z acts.(i).r_id) (if acts.(i).r_obs then ",obs" else "")) enabled))
+         | _ -> ());
         match obs, enabled with
         | (i, s') :: _, _ -> stack := (!state, !head, !lingering, i, []) :: !stack; apply i s'
         | [], (i, s') :: alts -> stack := (!state, !head, !lingering, i, alts) :: !stack; apply i s'
-        | [], [] -> backtrack ()
+        | [], [] ->
+          (* nothing enabled nearby: look further ahead for ONE action that unblocks one of the blocked nearby actions (a thread
+             that was preempted between its operation and the recorder's stamp) *)
+          let blocked = List.rev !cands in
+          let rescue = ref None and j = ref !head in
+          while !rescue = None && !j < n && !j < !head + 2048 do
+            if (not donef.(!j)) && (prev.(!j) < 0 || donef.(prev.(!j))) && not (List.mem !j blocked) then begin
+              match try_ !state acts.(!j) with
+              | Some sj -> if List.exists (fun b -> try_ sj acts.(b) <> None) blocked then rescue := Some (!j, sj)
+              | None -> ()
+            end;
+            incr j
+          done;
+          (match !rescue with
+           | Some (x, sx) -> stack := (!state, !head, !lingering, x, []) :: !stack; apply x sx
+           | None ->
+             if !nback < 3 && Sys.getenv_opt "RQ_DEBUG" <> None then begin
+               Printf.eprintf "dead end %d: done %d head %d (tid %d id %d)\n" !nback !ndone !head tid_of.(!head) (int_of_z acts.(!head).r_id);
+               List.iter (fun i -> Printf.eprintf "   ready: pos %d tid %d id %d code %d\n" i tid_of.(i) (int_of_z acts.(i).r_id) (int_of_z acts.(i).r_code)) blocked
+             end;
+             incr nback; backtrack ())
       end
     end
   done;
@@ -158,7 +191,17 @@ let () =
           let acts = Array.of_list (List.map snd sorted) in
           let n = Array.length acts in
           let wi = int_of_string w in
-          let (found, complete) = search (rq_try ocb) (init_state (z_of_hex p0)) acts 24 wi (30 * n + 200000) in
+          let show = (fun s -> Printf.sprintf "head=%s tail=%s pend=%s sval=%s ksem=%s" (hex_of_z s.head) (hex_of_z s.tail) (hex_of_z s.pend) (hex_of_z s.sval) (hex_of_z s.ksem)) in
+          (* iterative widening of the displacement bound: the true order is almost the stamp order *)
+          let rec attempt ds best =
+            match ds with
+            | [] -> best
+            | d :: rest ->
+              let (found, complete) = search show (rq_try ocb) (init_state (z_of_hex p0)) acts 24 d (6 * n + 20000) in
+              if complete then (found, true, d)
+              else let (bf, _, _) = best in attempt rest (if List.length found > List.length bf then (found, false, d) else best) in
+          let (found, complete, dused) = attempt [4; 8; 16; 32; 64; wi] ([], false, 0) in
+          ignore dused;
           (* the order found first, then whatever is left in stamp order: RootQR.replay executes it strictly *)
           let used = Array.make n false in
           List.iter (fun i -> used.(i) <- true) found;
